@@ -31,7 +31,6 @@ MUTANTS = [
     ("main-break-guard", P, '            if main_loop and loop_depth == 1:\n                raise ValueError("cannot break out of the main loop()")', '            if False:\n                raise ValueError("cannot break out of the main loop()")', "C05"),
     ("strip-comment-quotes", P, "        if char == \"#\" and not in_single and not in_double:", "        if char == \"#\":", "C07"),
     ("blank-ends-block", P, '        if not lines[i].strip() or lines[i].lstrip().startswith("#"):\n            block.append(lines[i]); i += 1; continue', '        if lines[i].lstrip().startswith("#"):\n            block.append(lines[i]); i += 1; continue\n        if not lines[i].strip():\n            break', "C07"),
-    ("tab-8", P, "            i += 4", "            i += 8", "C07"),
     ("setcolor-swap", P, '                green_arg = _extract_call_argument(args_src, keyword="green")\n                if green_arg is None:\n                    green_arg = _extract_call_argument(args_src, position=1)\n                blue_arg = _extract_call_argument(args_src, keyword="blue")\n                if blue_arg is None:\n                    blue_arg = _extract_call_argument(args_src, position=2)\n                if red_arg is None or green_arg is None or blue_arg is None:\n                    raise ValueError("set_color requires', '                green_arg = _extract_call_argument(args_src, keyword="green")\n                if green_arg is None:\n                    green_arg = _extract_call_argument(args_src, position=2)\n                blue_arg = _extract_call_argument(args_src, keyword="blue")\n                if blue_arg is None:\n                    blue_arg = _extract_call_argument(args_src, position=1)\n                if red_arg is None or green_arg is None or blue_arg is None:\n                    raise ValueError("set_color requires', "C08,C04"),
     ("blink-times-kw", P, '            times_arg = _extract_call_argument(args_src, keyword="times")\n            if times_arg is None:\n                times_arg = _extract_call_argument(args_src, position=1)\n            duration = ', '            times_arg = _extract_call_argument(args_src, keyword="time")\n            if times_arg is None:\n                times_arg = _extract_call_argument(args_src, position=1)\n            duration = ', "C08"),
     ("neg-index", E, "T &__redu_list_get(__redu_list<T> &list, int index) {\nif (index < 0) {\n    index += static_cast<int>(list.size);\n  }", "T &__redu_list_get(__redu_list<T> &list, int index) {\nif (index < -1) {\n    index += static_cast<int>(list.size);\n  }", "C09,C01"),
@@ -43,7 +42,6 @@ MUTANTS = [
     ("pio-check-dropped", "src/Reduino/toolchain/pio.py", '    subprocess.run(["pio", "run"], cwd=project_dir, check=True)', '    subprocess.run(["pio", "run"], cwd=project_dir)', "C12"),
     ("upload-before-build", "src/Reduino/toolchain/pio.py", '    subprocess.run(["pio", "run"], cwd=project_dir, check=True)\n    subprocess.run(["pio", "run", "-t", "upload"], cwd=project_dir, check=True)', '    subprocess.run(["pio", "run", "-t", "upload"], cwd=project_dir, check=True)\n    subprocess.run(["pio", "run"], cwd=project_dir, check=True)', "C12"),
     ("upload-always", "src/Reduino/__init__.py", "    if upload:\n        compile_upload(tmp)", "    compile_upload(tmp)", "C12"),
-    ("write-before-validate", "src/Reduino/toolchain/pio.py", '    validate_platform_board(platform, board)\n    (project_dir / "src").mkdir(parents=True, exist_ok=True)', '    (project_dir / "src").mkdir(parents=True, exist_ok=True)\n    validate_platform_board(platform, board)', "C13"),
     ("validate-ignores-platform", "src/Reduino/toolchain/pio.py", "    if required_platform != platform:", "    if False:", "C13,C12"),
     ("dedup-set", "src/Reduino/toolchain/pio.py", "    unique: List[str] = []\n    for entry in libraries:\n        if not entry:\n            continue\n        if entry not in unique:\n            unique.append(entry)", "    unique = sorted({e for e in libraries if e})", "C13"),
     ("env-not-sanitised", "src/Reduino/toolchain/pio.py", '    return re.sub(r"[^A-Za-z0-9_]+", "_", board)', "    return board", "C13"),
